@@ -1259,5 +1259,5 @@ def replay(ctx, payload):
     for v in new:
         print("still failing:", v["what"])
     if not new:
-        print("rule now agrees with the specification:", wire(c))
+        print("rule now agrees with the specification:", json.dumps(c) if c.get("zone") is not None else wire(c))
     return not new
